@@ -1,5 +1,5 @@
 import RsslVerif.Driver.Loop
-import RsslVerif.Driver.C02Dup
+import RsslVerif.Driver.C02Call
 /-! `rsslmodel_c02`: the C02 model behind the line protocol (one executable per property, so that a
     table that can no longer be extracted for one property cannot break another property's check). -/
-def main : IO Unit := RsslVerif.Driver.runDriver RsslVerif.Driver.C02Dup.handle
+def main : IO Unit := RsslVerif.Driver.runDriver RsslVerif.Driver.C02Call.handle
